@@ -581,6 +581,9 @@ class FromPandasDivisions(FromPandas):
             data = self.frame._data
             if data.index.is_unique:
                 indexer = data.index.get_indexer(key, method="bfill")
+                # a division above every index value has nothing to fill
+                # back from: it is located behind the last row
+                indexer[indexer < 0] = len(data)
             else:
                 # get_indexer doesn't support method
                 indexer = np.searchsorted(data.index.values, key, side="left")
